@@ -15,10 +15,10 @@ use std::cell::RefCell;
 use std::io::{BufWriter, Read, Seek as IoSeek, SeekFrom, Write};
 use std::rc::Rc;
 
-pub const RULE: &str = "scenarios: encode+finalize through sample/byte/channel writers (seek table on/off × declared/undeclared) directly over the device (at offset 0 and behind a 24-byte foreign prefix) and over BufWriter<device> passed by value (as the crate's own create(path) does); FlacStreamWriter::write ×2; write_blocks; update_file in place (shrink / equal / grow into padding) and rebuilt; decode through 3 readers, verify_reader, generate_seektable and update_file under failing reads. For each scenario EVERY index n of the n-th write/flush/seek (resp. read) call × {permanent from n, once at n, Interrupted at n, 1-byte short transfer at n}; pairs of faults: quick on update_file scenarios (permanent/once), thorough on all scenarios. A state is one (scenario, fault schedule); outcomes = (scenario, kind, api result, contents equal?)";
-pub const ASSUMPTIONS: &[&str] = &["fault sequences with more than 2 faults are not explored", "File-backed entry points (create/open/update(path)) are the same generic code over BufWriter<File>/File; they are represented by the BufWriter<device> scenarios"];
+pub const RULE: &str = "scenarios: encode+finalize through sample/byte/channel writers (seek table on/off × declared/undeclared) directly over the device (at offset 0 and behind a 24-byte foreign prefix) and over BufWriter<device> passed by value (as the crate's own create(path) does); FlacStreamWriter::write ×2; write_blocks; update_file in place (shrink / equal / grow into padding) and rebuilt; decode through 3 readers, verify_reader, generate_seektable and update_file under failing reads. For each scenario EVERY index n of the n-th write/flush/seek (resp. read) call × {permanent from n, once at n, Interrupted at n, 1-byte short transfer at n}; every pair of faults on all scenarios; thorough adds every triple on scenarios with ≤ 40 targeted calls. A state is one (scenario, fault schedule); outcomes = (scenario, kind, api result, contents equal?)";
+pub const ASSUMPTIONS: &[&str] = &["fault sequences with more than 2 (thorough: 3 on short scenarios) faults are not explored", "File-backed entry points (create/open/update(path)) are the same generic code over BufWriter<File>/File; they are represented by the BufWriter<device> scenarios"];
 pub fn bounds(quick: bool) -> Value {
-    json!({"single_faults": "every call index × 4 kinds, all scenarios", "pairs": if quick { "update_file scenarios, kinds {permanent, once}" } else { "all scenarios, all kinds" }})
+    json!({"single_faults": "every call index × 4 kinds, all scenarios", "pairs": "all scenarios, all kinds", "triples": if quick { "none" } else { "scenarios with <= 40 targeted calls" }})
 }
 
 #[derive(Clone)]
@@ -317,16 +317,26 @@ pub fn run(ctx: &Ctx, acc: &mut Acc) {
                 schedules.push(vec![(i, k)]);
             }
         }
-        let pair_kinds: &[FaultKind] = if ctx.quick { &[FaultKind::Permanent, FaultKind::Once] } else { &FAULT_KINDS };
-        if ctx.thorough() || name.starts_with("update_file") {
+        for i in 0..n {
+            for j in i + 1..n {
+                for &k1 in &[FaultKind::Once, FaultKind::Interrupted, FaultKind::Short] {
+                    for &k2 in &FAULT_KINDS {
+                        schedules.push(vec![(i, k1), (j, k2)]);
+                    }
+                }
+            }
+        }
+        // deviation bound 3 where the scenario is short enough (thorough)
+        if ctx.thorough() && n <= 40 {
             for i in 0..n {
                 for j in i + 1..n {
-                    for &k1 in &[FaultKind::Once, FaultKind::Interrupted, FaultKind::Short] {
-                        if ctx.quick && k1 != FaultKind::Once {
-                            continue;
-                        }
-                        for &k2 in pair_kinds {
-                            schedules.push(vec![(i, k1), (j, k2)]);
+                    for l in j + 1..n {
+                        for &k1 in &[FaultKind::Once, FaultKind::Interrupted, FaultKind::Short] {
+                            for &k2 in &[FaultKind::Once, FaultKind::Interrupted, FaultKind::Short] {
+                                for &k3 in &FAULT_KINDS {
+                                    schedules.push(vec![(i, k1), (j, k2), (l, k3)]);
+                                }
+                            }
                         }
                     }
                 }
